@@ -2,7 +2,7 @@
    `tie_*`  : the executable model against the implementation's observation;
    `spec_*` : the sorted-map specification (Spec.v) evaluated on the implementation's answer.
    No theorem lives here. *)
-From TV Require Import Base.Prelude Generated.Constants SSTable.Spec SSTable.Delta SSTable.Scan SSTable.Writer SSTable.Dict SSTable.File SSTable.Merge.
+From TV Require Import Base.Prelude Generated.Constants SSTable.Spec SSTable.Delta SSTable.Scan SSTable.Writer SSTable.Dict SSTable.DictProofs SSTable.File SSTable.Merge.
 Local Open Scope N_scope.
 
 Definition bytes_eqb (a b : bytes) : bool := list_eqb N.eqb a b.
@@ -77,7 +77,7 @@ Definition spec_ord_map {V} (ms : list (smap V)) (merged : list bytes) (omap : l
 (* building must not silently accept a key sequence that is not strictly increasing *)
 Definition spec_rejects (ks : list bytes) (impl_accepted : bool) : bool := ssorted ks || negb impl_accepted.
 
-(* F11: the sequence starts with a duplicate of the empty key and the block cannot have been flushed
+(* F11 (class of the OLD shape of the ordering assertion): the sequence starts with a duplicate of the empty key and the block cannot have been flushed
    in between (the first key occupies one byte: flushed iff 1 > block_len) *)
 Definition f11_class (block_len : N) (ks : list bytes) : bool :=
   match ks with [] :: [] :: _ => N.leb 1 block_len | _ => false end.
@@ -87,7 +87,7 @@ Definition tie_stream {V} (veq : V -> V -> bool) (vc : vcodec V) (table : list (
   okvs_eqb veq (stream_file vc (table_lookup table) file) m.
 
 Definition with_dict {V} (bl : N) (m : smap V) (f : dict (V := V) -> N -> bool) : bool :=
-  match build bl m with Some (d, n) => f d n | None => false end.
+  match build ORDER_FIXED bl m with Some (d, n) => f d n | None => false end.
 
 Definition tie_probe {V} (veq : V -> V -> bool) (d : dict (V := V)) (p : probe V) : bool :=
   opt_eqb (opt_eqb veq) (get d (p_key p)) (Some (p_get p)) &&
@@ -106,19 +106,17 @@ Definition tie_dict {V} (veq : V -> V -> bool) (bl : N) (m : smap V) (num : N) (
 (* impl = None: the implementation panicked *)
 Definition tie_range {V} (veq : V -> V -> bool) (bl : N) (m : smap V) (lo hi : bound) (limit : option N)
     (impl : option (list (bytes * V))) : bool :=
-  with_dict bl m (fun d _ => opt_eqb (kvs_eqb veq) (range d lo hi limit) impl).
+  with_dict bl m (fun d _ => opt_eqb (kvs_eqb veq) (range RANGE_FIXED d lo hi limit) impl).
 Definition tie_prefix {V} (veq : V -> V -> bool) (bl : N) (m : smap V) (p : bytes) (impl : option (list (bytes * V))) : bool :=
-  with_dict bl m (fun d _ => opt_eqb (kvs_eqb veq) (prefix_range d p) impl).
+  with_dict bl m (fun d _ => opt_eqb (kvs_eqb veq) (prefix_range RANGE_FIXED d p) impl).
 
 (* malformed streams: index of the insert that panics (None = everything accepted) *)
 Definition tie_reject (bl : N) (ks : list bytes) (impl : option N) : bool :=
-  opt_eqb N.eqb (first_reject bl w_init (map (fun k => (k, tt)) ks) 0) impl.
+  opt_eqb N.eqb (first_reject ORDER_FIXED bl w_init (map (fun k => (k, tt)) ks) 0) impl.
 
-(* F151: a range whose upper key lies strictly below its lower key AND whose two keys are located in
+(* F151 (class of the OLD shape of file_slice_for_range, range_fixed = false): a range whose upper key lies strictly below its lower key AND whose two keys are located in
    different blocks, the upper one first: Dictionary::file_slice_for_range then builds a byte range
    with end < start and FileSlice::slice asserts.  (Inverted ranges inside one block yield [].) *)
-Definition range_inverted (lo hi : bound) : bool :=
-  match bound_key lo, bound_key hi with Some a, Some b => blt b a | _, _ => false end.
 Definition f151_class {V} (bl : N) (m : smap V) (lo hi : bound) : bool :=
   range_inverted lo hi &&
-  with_dict bl m (fun d _ => match slice_for_range d lo hi None with SlicePanic => true | _ => false end).
+  with_dict bl m (fun d _ => match slice_for_range false d lo hi None with SlicePanic => true | _ => false end).
